@@ -81,7 +81,7 @@ def configured(v, work, stats, cases, rng, cap, checked):
     jobs, meta = [], []
     for s in range(0, len(rows), BATCH):
         text, first, _ = B.program(rows[s:s + BATCH])
-        jobs.append({"cfg": cfg, "cfgkey": cfgkey, "files": {"t.rb": text}, "args": ["t.rb"]})
+        jobs.append({"cfg": cfg, "cfgkey": cfgkey, "files": {"t.rb": text}, "args": ["t.rb"], "timeout": 120})
         meta.append((s, first))
     wr = C.Runner(work, "worker")
     try:
